@@ -23,7 +23,7 @@ func TestC12OracleAcceptsImplementation(t *testing.T) {
 			t.Fatalf("case %d (%s) %s: %s", i, c.Stream, c.Hist.Sexp(), m)
 		}
 	}
-	for _, s := range []string{"string-targeted", "string-1byte", "string-2byte", "string-random", "rune-boundary", "rune-below-0x100", "rune-random", "byte", "regression", "concurrent"} {
+	for _, s := range []string{"string-targeted", "string-1byte", "string-2byte", "string-random", "rune-boundary", "rune-below-0x100", "rune-random", "byte", "regression", "concurrent", "context", "magic-content", "size"} {
 		if streams[s] == 0 {
 			t.Errorf("stream %s not generated", s)
 		}
